@@ -215,12 +215,15 @@ def contract_sf():
 
 
 def labels():
-    return ["wave|%d|%s" % (w, d) for w in (2, 4) for d in ("dtype", "nodtype")] + ["sf|%s|%s" % (s, d) for s in SUBTYPE_DTYPE for d in ("dtype", "nodtype")]
+    return ["wave|%d|%s" % (w, d) for w in (2, 4) for d in ("dtype", "nodtype")] + ["sf|%s|%s" % (s, d) for s in SUBTYPE_DTYPE for d in ("dtype", "nodtype")] \
+        + ["h5|%s|%s" % (k, d) for k in ("key", "nokey") for d in ("dtype", "nodtype")]
 
 
 def generate(prop, label):
     from contracts.registry import run_contract
     kind, a, d = label.split("|")
+    if kind == "h5":
+        return generate_h5(prop, label)
     if kind == "wave":
         return run_contract(prop, ("util", "_wave_read_signal"), contract_wave(), [(label, setup_wave(int(a), d == "dtype"))], name="readers_audio", fname="_wave_read_signal")
     return run_contract(prop, ("util", "_soundfile_read_signal"), contract_sf(), [(label, setup_sf(a, d == "dtype"))], name="readers_audio", fname="_soundfile_read_signal")
@@ -231,7 +234,7 @@ def to_case(ob):
     from rtc import c11
     out = []
     for cname, cont in c11.CONT.items():
-        if not any(x in cname for x in ("wav", "flac", "aiff", "sf", "sound")):
+        if not any(x in cname for x in ("wav", "flac", "aiff", "sf", "sound", "hdf5", "h5")):
             continue
         for sd in cont.sdtypes:
             for shape in ([7], [5, 2], [6, 3]):
@@ -245,7 +248,7 @@ def to_case(ob):
         for group in c11.enumerate_groups("quick", 0):
             cases = group[1] if isinstance(group, tuple) else [group]
             for c in cases:
-                if any(x in str(c.get("container")) for x in ("wav", "flac", "aiff")):
+                if any(x in str(c.get("container")) for x in ("wav", "flac", "aiff", "hdf5", "h5")):
                     out.append(c)
             if len(out) > 400:
                 break
@@ -261,3 +264,215 @@ def unit_readers_audio(prop="C11"):
         return run_parallel("readers_audio", jobs, to_case=to_case, replay_module="rtc.c11")
     unit.__name__ = "readers_audio"
     return unit
+
+
+# ------------------------------------------------------------------------------------------------------------- HDF5
+# _hdf5_read_signal: the file is opened once, read-only, with the caller's keyword arguments; with a key the entry of that name is taken;
+# without one, for an archive whose root group holds only data sets (any number n; nested groups stay with the stand-in), the data set
+# with the SMALLEST name is taken (the depth-first search in name order finds it first) and IOError is raised iff there is none; the entry is
+# converted with numpy.array once, with dtype= iff a dtype is given.
+NAME_DESC = z3.Function("root_entry_name_in_descending_order", z3.IntSort(), z3.IntSort())
+
+
+class H5Item:
+    def __init__(self, term):
+        self.term = term
+
+
+class H5File(H5Item):
+    def __init__(self):
+        H5Item.__init__(self, ("file",))
+
+    def sym_getitem(self, sl, ev, node):
+        k = ev.eval(sl)
+        return H5Item(("entry", k.term if isinstance(k, Opaque) else k))
+
+    def sym_getattr(self, attr, ev, node):
+        if attr == "keys":
+            return symex.PyCallable(lambda ev2, a, kw, n2: H5Keys(False))
+        raise Outside(f"h5py file attribute .{attr}")
+
+
+class H5Keys:
+    def __init__(self, is_list):
+        self.is_list = is_list
+
+
+class H5KeyList:
+    """list(cur_group.keys()): n names; after sort(reverse=True) element j is NAME_DESC(j) (ghost flag 'sorted_desc')"""
+    def sym_getattr(self, attr, ev, node):
+        if attr == "sort":
+            def sort(ev2, a, kw, n2):
+                if a or not set(kw) <= {"reverse"} or kw.get("reverse", False) not in (True, False):
+                    raise Outside("sort form")
+                ev2.st.ghost["sorted_desc"] = True if kw.get("reverse", False) else "asc"
+            return symex.PyCallable(sort)
+        raise Outside(f"key list attribute .{attr}")
+
+    def sym_iter(self, ev, node):
+        from pyvc.api import SeqVal
+        n = ev.ex.ctx["n"]
+        if ev.st.ghost["sorted_desc"] is True:
+            return SeqVal(n, lambda j: NAME_DESC(Z(j)))
+        if ev.st.ghost["sorted_desc"] == "asc":
+            return SeqVal(n, lambda j: NAME_DESC(n - 1 - Z(j)))
+        raise Outside("iteration over unsorted keys")
+
+
+class H5Stack:
+    """group_stack: ghost 'hstk' (Array Int -> Int: -1 the file, otherwise the NAME id of a root entry) and 'hsp'"""
+    def sym_getattr(self, attr, ev, node):
+        if attr == "pop":
+            def pop(ev2, a, kw, n2):
+                if a or kw:
+                    raise Outside("pop form")
+                s = ev2.st
+                sp = Z(s.ghost["hsp"])
+                ev2.wd(sp >= 1, "pop_from_a_non_empty_list", n2)
+                s.ghost["hsp"] = simp(sp - 1)
+                top = simp(z3.Select(s.ghost["hstk"], sp - 1))
+                return H5Top(top)
+            return symex.PyCallable(pop)
+        if attr == "append":
+            def append(ev2, a, kw, n2):
+                s = ev2.st
+                if len(a) != 1 or not isinstance(a[0], H5Top):
+                    raise Outside("append form")
+                sp = Z(s.ghost["hsp"])
+                s.ghost["hstk"] = z3.Store(s.ghost["hstk"], sp, Z(a[0].ident))
+                s.ghost["hsp"] = simp(sp + 1)
+            return symex.PyCallable(append)
+        raise Outside(f"stack attribute .{attr}")
+
+
+class H5Top(H5Item):
+    """an element of the search stack: ident == -1 is the file (root group), any other ident a root entry's name"""
+    def __init__(self, ident):
+        self.ident = ident
+        H5Item.__init__(self, ("stack_item", ident))
+
+    def sym_getattr(self, attr, ev, node):
+        if attr == "keys":
+            return symex.PyCallable(lambda ev2, a, kw, n2: H5Keys(False))
+        raise Outside(f"stack item attribute .{attr}")
+
+    def sym_getitem(self, sl, ev, node):
+        k = ev.eval(sl)
+        if not (symex.is_z3(k) and z3.is_int(k)):
+            raise Outside("group subscript form")
+        return H5Top(k)
+
+
+def setup_h5(key_given, dtype_given):
+    def _setup(ex, st):
+        n = api.sym("n_root_entries")
+        st.assume(n >= 0)
+        j, j2 = z3.Ints("hj hj2")
+        st.assume(z3.ForAll([j], NAME_DESC(j) >= 0))
+        st.assume(z3.ForAll([j, j2], z3.Implies(z3.And(j >= 0, j < j2, j2 < n), NAME_DESC(j) > NAME_DESC(j2))))      # strictly descending (names are distinct)
+        st.env.update({"rfilename": Opaque("RFILENAME", "str"), "dtype": Opaque("DTYPE", "dtype") if dtype_given else None,
+                       "key": Opaque("KEY", "str") if key_given else None, "kwargs": Opaque("KWARGS", "mapping")})
+        st.ghost.update(trace=[], sorted_desc=False, hstk=z3.K(z3.IntSort(), z3.IntVal(-2)), hsp=0)
+        ex.ctx = dict(n=n, key_given=key_given, dtype_given=dtype_given)
+    return _setup
+
+
+def h_h5file(ex, st, args, kwargs, node, ev):
+    ok = len(args) == 2 and args[0] is st.env["rfilename"] and args[1] == "r" and set(kwargs) == {None} and kwargs[None] is st.env["kwargs"]
+    _ev(st, ("open", ok))
+    return H5File()
+
+
+def h_h5_isinstance(ex, st, args, kwargs, node, ev):
+    obj, cls = args
+    if isinstance(obj, H5Top) and isinstance(cls, Opaque) and cls.term == "h5py.Dataset":
+        return Z(obj.ident) != -1          # root entries are data sets (precondition of this contract), the file is a group
+    raise Outside("isinstance form")
+
+
+def h_h5_list(ex, st, args, kwargs, node, ev):
+    if len(args) == 1 and isinstance(args[0], H5Keys) and not kwargs:
+        return H5KeyList()
+    raise Outside("list() form")
+
+
+def h_h5_array(ex, st, args, kwargs, node, ev):
+    ok = len(args) == 1 and isinstance(args[0], H5Item) and set(kwargs) <= {"dtype"}
+    dt = kwargs.get("dtype")
+    _ev(st, ("array", args[0].term if ok else None, dt))
+    return Data(("array", args[0].term if ok else None))
+
+
+def h_h5_truthiness(ex, st, v):
+    if isinstance(v, H5Stack):
+        return Z(st.ghost["hsp"]) > 0
+    if isinstance(v, list):
+        return len(v) > 0
+    if isinstance(v, Opaque) and v.kind == "str":
+        return True                       # a key that is given is a non-empty name
+    return h_truthiness(ex, st, v)
+
+
+def _h5_convert_stack(st, v):
+    if isinstance(v, list) and len(v) == 1 and isinstance(v[0], H5File):
+        st.ghost["hstk"] = z3.Store(z3.K(z3.IntSort(), z3.IntVal(-2)), 0, z3.IntVal(-1))
+        st.ghost["hsp"] = 1
+        return H5Stack()
+    if isinstance(v, H5Stack):
+        return v
+    raise Outside("initial stack form")
+
+
+def contract_h5():
+    from pyvc.symex import LoopSpec
+
+    def inv_outer(ev):
+        st, c = ev.st, ev.ex.ctx
+        sp, stk, n = Z(st.ghost["hsp"]), st.ghost["hstk"], c["n"]
+        k = z3.Int("ok")
+        data = st.env.get("data")
+        start = z3.And(sp == 1, z3.Select(stk, 0) == -1)
+        pushed = z3.And(sp == n, z3.ForAll([k], z3.Implies(z3.And(k >= 0, k < n), z3.Select(stk, k) == NAME_DESC(k))))
+        return z3.And(z3.BoolVal(data is None), z3.Or(start, pushed))
+
+    def inv_inner(ev):
+        st, c = ev.st, ev.ex.ctx
+        sp, stk, n = Z(st.ghost["hsp"]), st.ghost["hstk"], c["n"]
+        zi = Z(st.env["__zi"])
+        k = z3.Int("ik")
+        return z3.And(zi >= 0, zi <= n, sp == zi, z3.ForAll([k], z3.Implies(z3.And(k >= 0, k < zi), z3.Select(stk, k) == NAME_DESC(k))),
+                      z3.BoolVal(st.env.get("data") is None))
+
+    def ok(ev, res):
+        st, c = ev.st, ev.ex.ctx
+        tr = st.ghost["trace"]
+        if len(tr) != 2 or tr[0] != ("open", True) or tr[1][0] != "array" or not isinstance(res, Data) or res.term != ("array", tr[1][1]):
+            return z3.BoolVal(False)
+        dt_ok = (tr[1][2] is st.env["dtype"]) if c["dtype_given"] else (tr[1][2] is None)
+        if not dt_ok:
+            return z3.BoolVal(False)
+        t = tr[1][1]
+        if c["key_given"]:
+            return z3.BoolVal(t == ("entry", "KEY"))
+        if not (isinstance(t, tuple) and t[0] == "stack_item"):
+            return z3.BoolVal(False)
+        return z3.And(c["n"] >= 1, Z(t[1]) == NAME_DESC(c["n"] - 1))       # the smallest name
+
+    c = Contract(
+        target="util:_hdf5_read_signal", uses=["A-PYSEM", "A-IO-CONTAINER"],
+        consts={"INV_OUTER": SpecFn(inv_outer), "INV_INNER": SpecFn(inv_inner), "OK": SpecFn(ok), "h5py.Dataset": Opaque("h5py.Dataset", "class"),
+                "EMPTY": SpecFn(lambda ev: z3.And(z3.BoolVal(not ev.ex.ctx["key_given"]), ev.ex.ctx["n"] == 0))},
+        handlers={"h5py.File": h_h5file, "isinstance": h_h5_isinstance, "list": h_h5_list, "np.array": h_h5_array, "truthiness": h_h5_truthiness},
+        loops={0: LoopSpec(kind="while", modifies_ghost=["hstk", "hsp", "sorted_desc"], types={"group_stack": lambda hst, v: H5Stack()},
+                           convert={"group_stack": _h5_convert_stack}, invariant=[("root_then_its_entries_in_descending_name_order", "INV_OUTER()")]),
+               1: LoopSpec(kind="for", modifies_ghost=["hstk", "hsp"], invariant=[("entries_pushed_so_far", "INV_INNER()")])},
+        raises={"IOError": "EMPTY()"},
+        ensures=[("opened_read_only_entry_selected_converted_once", "OK(result)")],
+    )
+    return c
+
+
+def generate_h5(prop, label):
+    from contracts.registry import run_contract
+    _, k, d = label.split("|")
+    return run_contract(prop, ("util", "_hdf5_read_signal"), contract_h5(), [(label, setup_h5(k == "key", d == "dtype"))], name="readers_audio", fname="_hdf5_read_signal")
